@@ -118,9 +118,16 @@ func (g *gen) ident(parts int, style int) string {
 var reserved = map[string]bool{"root": true, "packet": true, "repeat": true, "match": true, "MetaData": true, "options": true, "as": true, "string": true, "char": true, "true": true, "false": true,
 	"u8": true, "u16": true, "u32": true, "u64": true, "i8": true, "i16": true, "i32": true, "i64": true, "f32": true, "f64": true}
 
+// spicy are text fragments that trip naive text handling: printf verbs, shell
+// and template metacharacters, quotes, backslashes, multi-byte runes.
+var spicy = []string{"100% of", "%s", "%d%%", "%v %+v", "%!", "$HOME", "${x}", "<b>&amp;</b>", "{{.}}", "a\\nb", "\\", "'q'", "\"dq\"", "tab\there", "semi;colon", "#hash", "消息\u3000类型", "émoji ☃", "-- dash", "/* c */", "// not a comment", "@tag(1)", "[1, 2]", "trailing "}
+
 func (g *gen) desc() string {
 	if g.r.Chance(1, 2) {
 		return ""
+	}
+	if g.r.Chance(1, 4) {
+		return "`" + g.r.Pick(spicy) + "`"
 	}
 	return "`" + g.r.Pick([]string{"消息类型", "body length", "用户名", "price in ticks", "x", "a, b; c", "note: {braces}", "id"}) + "`"
 }
@@ -265,9 +272,21 @@ func GenProg(seed uint64) *Prog {
 	return p
 }
 
+// realistic protocol field names, including the spellings naming helpers
+// special-case (initialisms, dates, times, sequence numbers)
+var specialFieldNames = []string{"ID", "IP", "URL", "UUID", "API", "ClOrdID", "SecurityID", "OrigClOrdID", "orderID", "userId", "TradeDate", "SettlDate", "expire_date", "MaturityDate", "SendingTime", "TransactTime", "Timestamp", "CreatedAt", "MsgSeqNum", "Version", "Checksum", "Len", "Type", "Name", "Value", "Key", "Count", "Flag", "TCPPort", "HTTPCode", "Reserved", "Padding", "Class", "Self", "Default"}
+
 func (g *gen) fieldName(local map[string]bool) string {
-	for {
+	for tries := 0; ; tries++ {
 		n := g.r.Pick(words)
+		if tries < 3 && g.r.Chance(1, 6) {
+			n = g.r.Pick(specialFieldNames)
+			if !local[n] && !reserved[n] && !g.used[n] {
+				local[n] = true
+				return n
+			}
+			continue
+		}
 		if g.r.Chance(1, 2) {
 			n += g.r.Pick(words)
 		}
